@@ -332,6 +332,10 @@ def _input_wrappers(ck, repo):
             ok = [unparse(a) for a in ic.args] == [p[0], p[1], item, p[3]] and arg_text(ic, None, "path") == f"Path({p[5]}, {idx})" and fv.is_awaited(ic)
         ck.ob("inputs.list_coercer: each item is coerced by the inner coercer with Path(path, index), in order", bool(ok), f, ic, construct="list:items")
         ck.ob("inputs.list_coercer: the item arm is taken exactly for lists", fv.guarded(ic, lambda t: t == f"isinstance({p[2]}, list)", "T"), f, ic, construct="list:item-guard")
+        extra = [(t, o) for t, o in fv.conditions(ic) if t != f"isinstance({p[2]}, list)"]
+        skips = [n for lp_ in loops_ for n in walk_no_nested(lp_) if isinstance(n, (ast.Continue, ast.Break))] if loops_ else []
+        ck.ob("inputs.list_coercer: *every* item goes through the inner coercer (no item is answered from another item's result: 1, 1.0 and true are equal keys and different inputs)",
+              not extra and not skips, f, ic, construct="list:every-item", detail=f"conditions on the item call: {extra}; loop exits: {len(skips)}")
         sc = single[0]
         ok = [unparse(a) for a in sc.args] == [p[0], p[1], p[2], p[3]] and arg_text(sc, None, "path") == p[5] and \
             fv.guarded(sc, lambda t: t == f"isinstance({p[2]}, list)", "F")
